@@ -165,7 +165,44 @@ def _write_entry(path, entry):
     old = _FS.get(p)
     _FS.log.append(('overwrite' if old is not None else 'create', p))
     entry.preexisting = False
+    if old is not None and getattr(old, 'nlink', 1) > 1:
+        # the name is a hard link: writing replaces the content of the shared inode
+        keep = old.nlink
+        for other_path, other in list(_FS.entries.items()):
+            if other is old and other_path != p:
+                _FS.log.append(('overwrite', other_path))
+        old.__dict__.clear()
+        old.__dict__.update(entry.__dict__)
+        old.nlink = keep
+        return
     _FS.entries[p] = entry
+
+
+def os_link(src, dst):
+    e = _FS.get(src)
+    if e is None:
+        raise FileNotFoundError(str(src))
+    if _FS.get(dst) is not None:
+        raise FileExistsError(str(dst))
+    e.nlink = getattr(e, 'nlink', 1) + 1
+    _FS.log.append(('create', _norm(dst)))
+    _FS.entries[_norm(dst)] = e
+
+
+class _FakeOs(object):
+    """the real os module with link/symlink redirected to the virtual file system"""
+    def __getattr__(self, n):
+        import os as _os
+        return getattr(_os, n)
+
+    link = staticmethod(os_link)
+
+    @staticmethod
+    def symlink(src, dst, *a, **k):
+        raise OSError('symlinks are not modelled')
+
+
+fake_os = _FakeOs()
 
 
 def shutil_copy(src, dst):
